@@ -38,13 +38,17 @@ def shards(tier, seed):
     for p in orders:
         out.append({"part": "shift", "order": p, "seed": seed})
     out.append({"part": "df", "seed": seed})
+    # long records (size-dependent code paths): the same interior-sample statement with a *local* rounding bound
+    for p, N in ((31, 530000), (111, 150000), (3, 600000), (7, 70000)):
+        for rn in ("ramp2", "glitch", "id1"):
+            out.append({"part": "long", "order": p, "N": N, "rec": rn})
     return out
 
 
 def run_shard(shard):
     import logging
     logging.disable(logging.CRITICAL)
-    return {"taps": _taps, "shift": _shift, "df": _df}[shard["part"]](shard)
+    return {"taps": _taps, "shift": _shift, "df": _df, "long": _long}[shard["part"]](shard)
 
 
 def replay(case):
@@ -193,6 +197,86 @@ def _shift(shard):
                 if not (np.all(np.abs(yv[m1] - y1[m1]) <= 1e-9 * l1) and np.all(np.abs(yv[m2] - y2[m2]) <= 1e-9 * l2)):
                     add("alternating-vector", f"N={N} alternating shifts ({s1},{s2}): per-sample path differs from the two constant runs at interior samples", dict(shard))
     out["samples"].append({"order": p, "N": Ns[:4], "example": {"N": 8, "shift": 0.25}})
+    return out
+
+
+def _long(shard):
+    """Long records with a large dynamic range.  Every interior sample is compared with the Lagrange value computed in extended
+    precision from the exact rational weights; the allowance at sample n is the rounding of *its own* stencil
+    (64 u (p+2) sum_k |w_k| |x[n+k]|), so an error imported from far-away samples is visible."""
+    from speckit.dsp import timeshift
+
+    p, N, rn = shard["order"], shard["N"], shard["rec"]
+    out = {"evals": 0, "nontrivial": 0, "failures": [], "samples": [], "extra": {"interior_samples": 0}}
+    t = np.arange(N, dtype=np.float64)
+    if rn == "ramp2":
+        x = (t - 1000.0) ** 2 * 0.25 + 3.0 * t
+    elif rn == "glitch":
+        x = records.id1(N).copy()
+        x[N // 3] = 1e13
+    else:
+        x = records.id1(N)
+    u = float(np.finfo(np.float64).eps)
+    seen = set()
+
+    def add(tag, msg):
+        key = f"long/{tag}/order={p}"
+        if key not in seen:
+            seen.add(key)
+            out["failures"].append(fw.fail(key, f"{key}: N={N} record {rn}: {msg}", dict(shard)))
+
+    halfp = (p + 1) // 2
+    xl = x.astype(np.longdouble)
+    xa = np.abs(x)
+    for s in (0.25, -1.5, 1e-9, 12345.75, 3.0, -2.0, 0.0):
+        out["evals"] += 1
+        try:
+            y = np.asarray(timeshift(x.copy(), s, order=p))
+        except Exception as e:  # noqa: BLE001
+            add("raises", f"timeshift(shift={s}) raised {type(e).__name__}: {e}")
+            continue
+        if y.shape != x.shape:
+            add("shape", f"shift {s}: output shape {y.shape}")
+            continue
+        out["nontrivial"] += 1
+        if float(s) == int(s):
+            want = x[np.clip(np.arange(N) + int(s), 0, N - 1)]
+            bad = np.nonzero(~(np.abs(y - want) <= 1e-12 * np.abs(want) + 1e-300))[0]
+            if bad.size:
+                n = int(bad[0])
+                add("integer", f"integer shift {int(s)}: sample {n} = {y[n]!r}, displaced record has {want[n]!r} ({bad.size} samples differ)")
+            continue
+        si = int(np.floor(s))
+        nodes, w = lagrange.weights(p, Fraction(float(s)) - si)
+        wl = np.array([float(v) for v in w], dtype=np.longdouble)
+        lo, hi = si + nodes[0], si + nodes[-1]
+        n0, n1 = max(0, -lo), min(N - 1, N - 1 - hi)   # interior samples n0..n1
+        if n1 < n0:
+            continue
+        m = n1 - n0 + 1
+        val = np.zeros(m, dtype=np.longdouble)
+        mag = np.zeros(m, dtype=np.float64)
+        for k, nd in enumerate(nodes):
+            a = n0 + si + nd
+            val += wl[k] * xl[a:a + m]
+            mag += abs(float(wl[k])) * xa[a:a + m]
+        tol = 64 * u * (p + 2) * mag + 1e-300
+        err = np.abs(y[n0:n1 + 1] - val.astype(np.float64))
+        out["extra"]["interior_samples"] += m
+        bad = np.nonzero(~(err <= tol))[0]
+        if bad.size:
+            n = int(bad[np.argmax(err[bad] / tol[bad])])
+            add("interior", f"shift {s}: sample {n0 + n} = {y[n0 + n]!r}, Lagrange value of its own {p + 1}-sample stencil {float(val[n])!r} "
+                            f"(error {err[n]:.3e}, rounding allowance of that stencil {tol[n]:.3e}; {bad.size} interior samples off)")
+        # the per-sample path on the same constant shift
+        yv = np.asarray(timeshift(x.copy(), np.full(N, s), order=p))
+        errv = np.abs(yv[n0:n1 + 1] - y[n0:n1 + 1])
+        badv = np.nonzero(~(errv <= 2 * tol))[0]
+        out["evals"] += 1
+        if badv.size:
+            n = int(badv[0])
+            add("const-vs-vector", f"shift {s}: constant path {y[n0 + n]!r} vs per-sample path {yv[n0 + n]!r} at interior sample {n0 + n}")
+    out["samples"].append({"order": p, "N": N, "rec": rn})
     return out
 
 
